@@ -834,6 +834,13 @@ class CallMixin:
                 return o.bool_(w.OptBytes.is_present(cell))
             if fn == "fs_content":
                 return o.bytes_(w.OptBytes.content(cell))
+        if fn in ("fs_exists", "fs_isdir", "fs_isfile", "path_isabs"):
+            from .builtins_spec import path_query
+            return o.bool_(path_query(w, st, fn.split("_", 1)[1], o.s(A(0))))
+        if fn in ("path_abspath", "path_join"):
+            t = w.fun(fn, *(["str"] * (len(e.args) + 1)))(*[o.s(A(i)) for i in range(len(e.args))])
+            st.terms.append(("str", t))
+            return o.str_(t)
         if fn == "fs_readable":
             p = o.s(A(0))
             return o.bool_(z3.And(w.OptBytes.is_present(z3.Select(st.g("fs"), p)), z3.Not(z3.Select(st.g("unreadable"), p))))
